@@ -407,7 +407,7 @@ package connect
 //@   requires c != nil && decompressor != nil && frompool(decompressor) == c.decompressors && pooled(decompressor) && held(decompressor) && usable(decompressor) && !typeis(decompressor, "*bytes.Buffer")
 //@   assigns owned(decompressor)
 //@   ensures owned(decompressor) == old(owned(decompressor))
-//@   ensures old(rest(decompressor)) == [] && old(termerr(decompressor)) == io.EOF ==> err == nil    // label: recycling-a-drained-decompressor-succeeds
+//@   ensures closesCleanly(c.decompressors) && old(rest(decompressor)) == [] && old(termerr(decompressor)) == io.EOF ==> err == nil    // label: recycling-a-drained-decompressor-succeeds-if-its-Close-does
 
 // The sum bytesRead+discardedBytes is only printed in an error message.
 //@ func (*compressionPool).Decompress(c, dst, src, readMaxBytes) res
@@ -421,7 +421,7 @@ package connect
 //@   ensures res == nil && readMaxBytes > 0 ==> |decompBy(c.decompressors, view(src))| <= readMaxBytes          // label: success-implies-within-limit   // tags: C09
 //@   ensures readMaxBytes > 0 && decompOK(c.decompressors, view(src)) && |decompBy(c.decompressors, view(src))| > readMaxBytes ==> res != nil && codeOf(res) == 3   // label: over-limit-is-invalid-argument   // tags: C09
 //@   ensures readMaxBytes > 0 && readMaxBytes < 9223372036854775807 ==> |view(dst)| - |old(view(dst))| <= readMaxBytes + 1          // label: buffers-at-most-limit-plus-one   // tags: C09
-//@   ensures decompOK(c.decompressors, view(src)) && (readMaxBytes <= 0 || |decompBy(c.decompressors, view(src))| <= readMaxBytes) ==> res == nil   // label: valid-input-within-limit-accepted
+//@   ensures closesCleanly(c.decompressors) && decompOK(c.decompressors, view(src)) && (readMaxBytes <= 0 || |decompBy(c.decompressors, view(src))| <= readMaxBytes) ==> res == nil   // label: valid-input-within-limit-accepted
 //@   ensures |view(src)| > 0 && res != nil ==> !Is(res, io.EOF)                                    // label: failure-is-never-a-clean-eof   // tags: C04
 //@   ensures res != nil ==> asErr(res) == res && res.code != 0 && (res.code == 3 || res.code == 2)   // label: its-own-errors-are-invalid-argument-or-unknown
 
@@ -474,16 +474,17 @@ package connect
 //@ macro completeFrame(r *envelopeReader, s seq) bool = |s| >= 5 && withinLimit(declared(s), r.readMaxBytes) && |s| >= 5 + declared(s)
 //@ macro isCompressed(s seq) bool = bit(s[0], 1) && declared(s) > 0
 //@ macro plainOK(r *envelopeReader, s seq) bool = !isCompressed(s) || (r.compressionPool != nil && decompOK(r.compressionPool.decompressors, payloadOf(s)) && (r.readMaxBytes <= 0 || |decompBy(r.compressionPool.decompressors, payloadOf(s))| <= r.readMaxBytes))
+//@ macro plainWillDecode(r *envelopeReader, s seq) bool = plainOK(r, s) && (isCompressed(s) ==> closesCleanly(r.compressionPool.decompressors))
 //@ macro plain(r *envelopeReader, s seq) seq = if isCompressed(s) then decompBy(r.compressionPool.decompressors, payloadOf(s)) else payloadOf(s)
 
 //@ func (*envelopeReader).Unmarshal(r, message) res
 //@   tags C01, C03, C04, C07, C08, C09
 //@   requires r != nil && r.reader != nil && !pooled(r.reader) && termerr(r.reader) != errSpecialEnvelope && r.bufferPool != nil && r.codec != nil
 //@   assigns rest(r.reader), mval(message), prototarget(message), r.last.Data, r.last.Flags
-//@   ensures let S := old(rest(r.reader)) in completeFrame(r, S) && (S[0] == 0 || S[0] == 1) && plainOK(r, S) ==> (res == nil <==> mdecOK(r.codec, plain(r, S))) && rest(r.reader) == S[5+declared(S):]    // label: message-accepted-iff-codec-accepts
+//@   ensures let S := old(rest(r.reader)) in completeFrame(r, S) && (S[0] == 0 || S[0] == 1) && plainWillDecode(r, S) ==> (res == nil <==> mdecOK(r.codec, plain(r, S))) && rest(r.reader) == S[5+declared(S):]    // label: message-accepted-iff-codec-accepts
 //@   ensures let S := old(rest(r.reader)) in completeFrame(r, S) && (S[0] == 0 || S[0] == 1) && plainOK(r, S) && res == nil ==> mval(message) == mdec(r.codec, plain(r, S))   // label: target-is-exactly-the-decoded-payload   // tags: C01
 //@   ensures let S := old(rest(r.reader)) in res == nil ==> completeFrame(r, S) && (S[0] == 0 || S[0] == 1) && plainOK(r, S) && mdecOK(r.codec, plain(r, S))   // label: success-only-for-a-complete-decodable-message-within-limits   // tags: C04, C07, C09
-//@   ensures let S := old(rest(r.reader)) in completeFrame(r, S) && S[0] != 0 && S[0] != 1 && plainOK(r, S) ==> res == errSpecialEnvelope && r.last.Flags == S[0] && r.last.Data != nil && owned(r.last.Data) && view(r.last.Data) == plain(r, S) && rest(r.reader) == S[5+declared(S):]   // label: protocol-flagged-frame-is-kept-aside   // tags: C04, C05
+//@   ensures let S := old(rest(r.reader)) in completeFrame(r, S) && S[0] != 0 && S[0] != 1 && plainWillDecode(r, S) ==> res == errSpecialEnvelope && r.last.Flags == S[0] && r.last.Data != nil && owned(r.last.Data) && view(r.last.Data) == plain(r, S) && rest(r.reader) == S[5+declared(S):]   // label: protocol-flagged-frame-is-kept-aside   // tags: C04, C05
 //@   ensures let S := old(rest(r.reader)) in res == errSpecialEnvelope ==> completeFrame(r, S) && S[0] != 0 && S[0] != 1 && plainOK(r, S) && r.last.Flags == S[0] && r.last.Data != nil && owned(r.last.Data) && view(r.last.Data) == plain(r, S)   // label: the-sentinel-means-a-flagged-frame-was-kept-aside   // tags: C04, C05
 //@   ensures res != nil && Is(res, errSpecialEnvelope) ==> res == errSpecialEnvelope                          // label: nothing-else-wraps-the-sentinel   // tags: C04
 //@   ensures res != nil && Is(res, io.EOF) && res != errSpecialEnvelope && termerr(r.reader) == io.EOF ==> |old(rest(r.reader))| == 0   // label: eof-other-than-the-sentinel-only-at-a-clean-end   // tags: C04
